@@ -161,7 +161,13 @@ pub fn run(ctx: &Ctx) -> Report {
             let mut text = Vec::new();
             stream_fill(&mut text, ctx.seed, i, plen - 1, true);
             let cmds = vec![Cmd::query(&text).seq(id), Cmd::ping().seq(id)];
-            let case = Case::new(cmds, vec![Script::Q(QProg::completed(1, 1))]);
+            let mut case = Case::new(cmds, vec![Script::Q(QProg::completed(1, 1))]);
+            // a read ends exactly where each full fragment ends: the fragment is completely buffered
+            // while the terminating fragment has not arrived yet
+            let (input, ends) = case.input();
+            let cuts: Vec<usize> = layout(&input).iter().filter(|(o, l)| *l == MAXP && *o >= ends[0].0).map(|(o, l)| o + 4 + l).collect();
+            case.sched = crate::transport::Sched { cuts, cycle: vec![1 << 20] };
+            case.log_reads = false;
             let obs = run_case(&case);
             rep.evaluations += 1;
             rep.counters.inc("multi_packet_requests");
